@@ -32,6 +32,7 @@ import Aqv.Lemmas.ChainHist
 import Aqv.Lemmas.ChainHdr
 import Aqv.Lemmas.ChainMixedIdx
 import Aqv.Lemmas.ChainLag
+import Aqv.Lemmas.ChainCoins
 namespace Aqv.Props.C03
 open Aqv.Chain
 
@@ -389,5 +390,42 @@ theorem mixed_header_entries_deleted_witness :
     (x.full.head = 4 ∧ x.full.hhead = 20 ∧ x.full.canon 1 = some 4 ∧ x.full.canon 2 = some 5 ∧
       x.full.canon 3 = some 20) := by
   decide
+
+/-! ### the coin resolutions followed by the replay driver
+
+`mrand.Float64() < 0.5` is the only nondeterminism of an import.  The driver (`Aqv.Model.ChainReplay`) follows coin vectors
+per `importOne` (one coin per `WriteBlockWithState` call: the re-imported stateless ancestors, then the block itself) and per
+header batch.  These theorems say which resolutions it covers and why that suffices; when an observed outcome is produced only
+by a resolution outside the enumeration the driver reports `too-many-ties` instead of a model disagreement. -/
+
+/-- every resolution with at most 3 coins `true` is followed, and every resolution whatsoever up to 6 calls (8 headers) -/
+theorem coin_enumeration_complete (n : Nat) (v : List Bool) (hv : v.length = n) :
+    ((n ≤ 6 ∨ v.count true ≤ 3) → v ∈ Aqv.ChainReplay.coinVecs n) ∧
+    ((n ≤ 8 ∨ v.count true ≤ 3) → v ∈ Aqv.ChainReplay.hdrCoinVecs n) :=
+  ⟨coinVecs_complete n v hv, hdrCoinVecs_complete n v hv⟩
+
+/-- `WriteBlockWithState` reads its coin only at an exact total-difficulty tie with the head at equal height: resolutions
+    that differ at other calls give the same database, so only the coins at ties have to be enumerated -/
+theorem coin_only_read_at_tie (s : St) (b : Blk) (h : ¬ tieAt s b) (c c' : Bool) :
+    writeBlockWithState s b c = writeBlockWithState s b c' := wbws_coin_irrelevant s b h c c'
+
+theorem header_coin_only_read_at_tie (s : HSt) (hd : Blk)
+    (hne : ∀ ptd lt, s.td hd.parent = some ptd → s.td s.hhead = some lt → ptd + hd.diff ≠ lt) (c c' : Bool) :
+    writeHeader s hd c = writeHeader s hd c' := writeHeader_coin_irrelevant s hd hne c c'
+
+/-- the resolution the driver missed before (false alarm of the thorough tier): six re-imported ancestors, then the block
+    itself wins its tie — the SEVENTH coin -/
+example : [false, false, false, false, false, false, true] ∈ Aqv.ChainReplay.coinVecs 7 := by decide
+
+/-- non-vacuity: at a tie the coin does decide (t1 is a twin of a1: same parent, height and difficulty) … -/
+example :
+    let t1 : Blk := ⟨30, 0, 1, 10, []⟩
+    let s := run (init g true) [.insert [a1] []]
+    (writeBlockWithState s t1 true).st.head = 30 ∧ (writeBlockWithState s t1 false).st.head = 1 := by decide
+
+/-- … and away from one it does not (c1 is heavier than a1) -/
+example :
+    let s := run (init g true) [.insert [a1] []]
+    (writeBlockWithState s c1 true).st.head = 7 ∧ (writeBlockWithState s c1 false).st.head = 7 := by decide
 
 end Aqv.Props.C03
